@@ -19,6 +19,7 @@ type vfBodySpec struct {
 	Cuts2       []int  `json:"cuts2"`       // a second partition of the same bytes
 	End         string `json:"end"`         // eof | eof-with-data | error | close-early
 	ErrWithData bool   `json:"errWithData"` // end=error: the last bytes and the error arrive in the same Read call
+	CloseErr    bool   `json:"closeErr"`    // closing the body fails
 	Items       string `json:"items"`       // readable description of the envelope items
 }
 
